@@ -6,46 +6,646 @@ import FmpRpc.Model.Reader
 -/
 namespace FmpRpc
 
+/-! ### The buffered source -/
+
+theorem srcRead_append (w : Nat) (cs : Chunks) :
+    (srcRead w cs).1 ++ (srcRead w cs).2.flatten = cs.flatten := by
+  induction cs with
+  | nil => simp [srcRead]
+  | cons c cs ih =>
+    cases c with
+    | nil => simpa [srcRead] using ih
+    | cons b c => simp [srcRead, ← List.append_assoc, List.take_append_drop]
+
+theorem srcRead_length_le (w : Nat) (cs : Chunks) : (srcRead w cs).1.length ≤ w := by
+  induction cs with
+  | nil => simp [srcRead]
+  | cons c cs ih =>
+    cases c with
+    | nil => simpa [srcRead] using ih
+    | cons b c => simp [srcRead]; omega
+
+theorem srcRead_pos (w : Nat) (cs : Chunks) (hw : 0 < w) (hs : 0 < cs.flatten.length) :
+    0 < (srcRead w cs).1.length := by
+  induction cs with
+  | nil => simp at hs
+  | cons c cs ih =>
+    cases c with
+    | nil => simpa [srcRead] using ih (by simpa using hs)
+    | cons b c => simp [srcRead]; omega
+
+theorem srcRead_spec (w : Nat) (cs : Chunks) :
+    ∃ k, k ≤ w ∧ k ≤ cs.flatten.length ∧ (0 < w → 0 < cs.flatten.length → 0 < k) ∧
+      (srcRead w cs).1 = cs.flatten.take k ∧ (srcRead w cs).2.flatten = cs.flatten.drop k := by
+  have h := srcRead_append w cs
+  refine ⟨(srcRead w cs).1.length, srcRead_length_le w cs, ?_, srcRead_pos w cs, ?_, ?_⟩
+  · rw [← h]; simp
+  · rw [← h]; simp
+  · rw [← h]; simp
+
+
+/-! ### `frameReader.Read` and `decReadFull` over it -/
+
+theorem FR.read_zero (w : Nat) (f : FR) (h : f.rem = 0) : f.read w = ([], some .eof, f) := by
+  simp [FR.read, h]
+
+theorem FR.read_nil (w : Nat) (f : FR) (h : f.rem ≠ 0) (hs : f.src.flatten = []) :
+    (f.read w).1 = [] ∧ (f.read w).2.1 = some .ueof ∧ (f.read w).2.2.rem = f.rem ∧
+      (f.read w).2.2.src.flatten = [] := by
+  obtain ⟨k, _, hk, _, h1, h2⟩ := srcRead_spec (if w > f.rem then f.rem else w) f.src
+  rw [hs] at h1 h2
+  rw [List.take_nil] at h1
+  rw [List.drop_nil] at h2
+  simp only [FR.read, if_neg h, h1, h2]
+  simp
+
+theorem FR.read_pos (w : Nat) (f : FR) (hw : 0 < w) (h : f.rem ≠ 0) (hs : f.src.flatten ≠ []) :
+    ∃ k, 0 < k ∧ k ≤ w ∧ k ≤ f.rem ∧ k ≤ f.src.flatten.length ∧
+      (f.read w).1 = f.src.flatten.take k ∧ (f.read w).2.1 = none ∧
+      (f.read w).2.2.rem = f.rem - k ∧ (f.read w).2.2.src.flatten = f.src.flatten.drop k := by
+  obtain ⟨k, hk1, hk2, hk3, h1, h2⟩ := srcRead_spec (if w > f.rem then f.rem else w) f.src
+  have hl : 0 < f.src.flatten.length := List.length_pos_iff.mpr hs
+  have hk0 : 0 < k := hk3 (by split <;> omega) hl
+  refine ⟨k, hk0, by split at hk1 <;> omega, by split at hk1 <;> omega, hk2, ?_⟩
+  have hlen : (List.take k f.src.flatten).length = k := by
+    rw [List.length_take]; omega
+  have hne : (List.take k f.src.flatten).isEmpty = false := by
+    rw [List.isEmpty_eq_false_iff]; intro h0; rw [h0] at hlen; simp at hlen; omega
+  simp only [FR.read, if_neg h, h1, h2, hne, hlen]
+  simp
+
+/-- What `readFull` returns, as a predicate on the flattened source `s`:
+    the four cases of `runFrame`'s `readx` branch. -/
+def ReadFullSpec (n rem : Nat) (s : Bytes) (r : Bytes × Option Err × FR) : Prop :=
+  (n ≤ rem → n ≤ s.length →
+    r.1 = s.take n ∧ r.2.1 = none ∧ r.2.2.rem = rem - n ∧ r.2.2.src.flatten = s.drop n) ∧
+  (n ≤ rem → s.length < n →
+    r.2.1 = some .ueof ∧ r.2.2.rem = rem - s.length ∧ r.2.2.src.flatten = []) ∧
+  (rem < n → rem ≤ s.length →
+    r.2.1 = some .eof ∧ r.2.2.rem = 0 ∧ r.2.2.src.flatten = s.drop rem) ∧
+  (rem < n → s.length < rem →
+    r.2.1 = some .ueof ∧ r.2.2.rem = rem - s.length ∧ r.2.2.src.flatten = [])
+
+theorem FR.readFull_spec (fuel n : Nat) (f : FR) (hf : n ≤ fuel) :
+    ReadFullSpec n f.rem f.src.flatten (f.readFull fuel n) := by
+  induction fuel generalizing n f with
+  | zero =>
+    obtain rfl : n = 0 := by omega
+    simp [ReadFullSpec, FR.readFull]
+  | succ fuel ih =>
+    by_cases hn : n = 0
+    · subst hn; simp [ReadFullSpec, FR.readFull]
+    by_cases hr : f.rem = 0
+    · simp only [FR.readFull, if_neg hn, FR.read_zero n f hr, ReadFullSpec, hr]
+      simp; omega
+    by_cases hs : f.src.flatten = []
+    · obtain ⟨h1, h2, h3, h4⟩ := FR.read_nil n f hr hs
+      simp only [FR.readFull, if_neg hn, h2, ReadFullSpec, hs, h3, h4]
+      simp; omega
+    · obtain ⟨k, hk0, hkn, hkr, hks, h1, h2, h3, h4⟩ := FR.read_pos n f (by omega) hr hs
+      have := ih (n - k) (f.read n).2.2 (by omega)
+      rw [h3, h4] at this
+      simp only [FR.readFull, if_neg hn, h2, h1, List.length_take, Nat.min_eq_left hks]
+      revert this
+      generalize FR.readFull fuel (n - k) (f.read n).2.2 = r
+      generalize f.src.flatten = s at *
+      intro ⟨a, b, c, d⟩
+      simp only [List.length_drop, List.drop_drop] at a b c d
+      refine ⟨?_, ?_, ?_, ?_⟩
+      · intro x y
+        obtain ⟨a1, a2, a3, a4⟩ := a (by omega) (by omega)
+        rw [Nat.add_sub_cancel' hkn] at a4
+        refine ⟨?_, a2, by simp only [a3]; omega, a4⟩
+        show List.take k s ++ r.1 = _
+        rw [a1, ← List.take_add, Nat.add_sub_cancel' hkn]
+      · intro x y
+        obtain ⟨b1, b2, b3⟩ := b (by omega) (by omega)
+        exact ⟨b1, by simp only [b2]; omega, b3⟩
+      · intro x y
+        obtain ⟨b1, b2, b3⟩ := c (by omega) (by omega)
+        rw [Nat.add_sub_cancel' hkr] at b3
+        exact ⟨b1, b2, b3⟩
+      · intro x y
+        obtain ⟨b1, b2, b3⟩ := d (by omega) (by omega)
+        exact ⟨b1, by simp only [b2]; omega, b3⟩
+
+
+/-! ### `runFrameImpl` -/
+
+theorem runFrame_readn1_zero (k : UInt8 → Prog α) (s : Bytes) :
+    runFrame (.readn1 k) 0 s = (⟨.error .eof, s⟩, 0) := by
+  cases s <;> simp [runFrame]
+
+theorem runFrame_readn1_nil (k : UInt8 → Prog α) (rem : Nat) (h : rem ≠ 0) :
+    runFrame (.readn1 k) rem [] = (⟨.error .ueof, []⟩, rem) := by
+  simp [runFrame, h]
+
+theorem runFrame_readn1_cons (k : UInt8 → Prog α) (rem : Nat) (h : rem ≠ 0) (b : UInt8) (s : Bytes) :
+    runFrame (.readn1 k) rem (b :: s) = runFrame (k b) (rem - 1) s := by
+  simp [runFrame, h]
+
 theorem runFrameImpl_eq (p : Prog α) (f : FR) :
     (runFrameImpl p f).1 = (runFrame p f.rem f.src.flatten).1.val ∧
     (runFrameImpl p f).2.rem = (runFrame p f.rem f.src.flatten).2 ∧
     (runFrameImpl p f).2.src.flatten = (runFrame p f.rem f.src.flatten).1.rest := by
-  sorry
+  induction p generalizing f with
+  | ret a => simp [runFrameImpl, runFrame]
+  | fail e => simp [runFrameImpl, runFrame]
+  | readn1 k ih =>
+    by_cases hr : f.rem = 0
+    · simp [runFrameImpl, runFrame_readn1_zero, FR.read_zero 1 f hr, hr]
+    by_cases hs : f.src.flatten = []
+    · obtain ⟨h1, h2, h3, h4⟩ := FR.read_nil 1 f hr hs
+      simp only [runFrameImpl, runFrame_readn1_nil _ _ hr, h1, h2, h3, h4, hs]
+      simp
+    · obtain ⟨j, hj0, hj1, hjr, hjs, h1, h2, h3, h4⟩ := FR.read_pos 1 f (by omega) hr hs
+      obtain rfl : j = 1 := by omega
+      cases hs' : f.src.flatten with
+      | nil => exact absurd hs' hs
+      | cons b t =>
+        rw [hs'] at h1 h4
+        simp only [List.take_succ_cons, List.take_zero, List.drop_succ_cons, List.drop_zero] at h1 h4
+        have := ih b (f.read 1).2.2
+        rw [h3, h4] at this
+        simp only [runFrameImpl, runFrame_readn1_cons _ _ hr, h1, h2]
+        exact this
+  | readx n k ih =>
+    by_cases hn : n = 0
+    · subst hn; simpa [runFrameImpl, runFrame] using ih [] f
+    obtain ⟨a, b, c, d⟩ := FR.readFull_spec n n f (Nat.le_refl _)
+    simp only [runFrameImpl, runFrame, if_neg hn]
+    by_cases x : n ≤ f.rem <;> by_cases y : n ≤ f.src.flatten.length
+    · obtain ⟨a1, a2, a3, a4⟩ := a x y
+      have := ih (f.src.flatten.take n) (f.readFull n n).2.2
+      rw [a3, a4] at this
+      simp only [if_pos x, if_pos y, a2, a1]
+      exact this
+    · obtain ⟨a2, a3, a4⟩ := b x (by omega)
+      simp only [if_pos x, if_neg y, a2, a3, a4]
+      simp
+    · by_cases z : f.rem ≤ f.src.flatten.length
+      · obtain ⟨a2, a3, a4⟩ := c (by omega) z
+        simp only [if_neg x, if_pos z, a2, a3, a4]
+        simp
+      · obtain ⟨a2, a3, a4⟩ := d (by omega) (by omega)
+        simp only [if_neg x, if_neg z, a2, a3, a4]
+        simp
+    · by_cases z : f.rem ≤ f.src.flatten.length
+      · obtain ⟨a2, a3, a4⟩ := c (by omega) z
+        simp only [if_neg x, if_pos z, a2, a3, a4]
+        simp
+      · obtain ⟨a2, a3, a4⟩ := d (by omega) (by omega)
+        simp only [if_neg x, if_neg z, a2, a3, a4]
+        simp
+
+
+/-! ### `runStreamImpl` -/
+
+theorem srcReadFull_spec (fuel n : Nat) (cs : Chunks) (hf : n ≤ fuel) :
+    (n ≤ cs.flatten.length →
+      (srcReadFull fuel n cs).1 = cs.flatten.take n ∧ (srcReadFull fuel n cs).2.1 = true ∧
+      (srcReadFull fuel n cs).2.2.flatten = cs.flatten.drop n) ∧
+    (cs.flatten.length < n →
+      (srcReadFull fuel n cs).2.1 = false ∧ (srcReadFull fuel n cs).2.2.flatten = []) := by
+  induction fuel generalizing n cs with
+  | zero =>
+    obtain rfl : n = 0 := by omega
+    simp [srcReadFull]
+  | succ fuel ih =>
+    by_cases hn : n = 0
+    · subst hn; simp [srcReadFull]
+    obtain ⟨k, hkn, hks, hk0, h1, h2⟩ := srcRead_spec n cs
+    by_cases hs : cs.flatten.length = 0
+    · have hk : k = 0 := by omega
+      subst hk
+      rw [List.take_zero] at h1
+      rw [List.drop_zero] at h2
+      have h3 : cs.flatten = [] := List.length_eq_zero_iff.mp hs
+      rw [h3] at h2
+      simp only [srcReadFull, if_neg hn, h1, h3, List.isEmpty_nil, if_true, h2]
+      simp; omega
+    · have hk : 0 < k := hk0 (by omega) (by omega)
+      have hlen : (List.take k cs.flatten).length = k := by
+        rw [List.length_take]; omega
+      have hne : (List.take k cs.flatten).isEmpty = false := by
+        rw [List.isEmpty_eq_false_iff]; intro h0; rw [h0] at hlen; simp at hlen; omega
+      have := ih (n - k) (srcRead n cs).2 (by omega)
+      rw [h2] at this
+      simp only [srcReadFull, if_neg hn, h1, hne, hlen]
+      revert this
+      generalize srcReadFull fuel (n - k) (srcRead n cs).2 = r
+      generalize cs.flatten = s at *
+      intro ⟨a, b⟩
+      simp only [List.length_drop, List.drop_drop] at a b
+      refine ⟨?_, ?_⟩
+      · intro y
+        obtain ⟨a1, a2, a3⟩ := a (by omega)
+        rw [Nat.add_sub_cancel' hkn] at a3
+        refine ⟨?_, a2, a3⟩
+        show List.take k s ++ r.1 = _
+        rw [a1, ← List.take_add, Nat.add_sub_cancel' hkn]
+      · intro y
+        exact b (by omega)
 
 theorem runStreamImpl_eq (p : Prog α) (cs : Chunks) :
     (runStreamImpl p cs).1 = (runStream p cs.flatten).val ∧
     (runStreamImpl p cs).2.flatten = (runStream p cs.flatten).rest := by
-  sorry
+  induction p generalizing cs with
+  | ret a => simp [runStreamImpl, runStream]
+  | fail e => simp [runStreamImpl, runStream]
+  | readn1 k ih =>
+    obtain ⟨j, hj1, hjs, hj0, h1, h2⟩ := srcRead_spec 1 cs
+    have hpair : srcRead 1 cs = ((srcRead 1 cs).1, (srcRead 1 cs).2) := rfl
+    cases hs : cs.flatten with
+    | nil =>
+      rw [hs] at h1 h2
+      rw [List.take_nil] at h1
+      rw [List.drop_nil] at h2
+      rw [runStreamImpl, hpair, h1]
+      simp [runStream, h2]
+    | cons b t =>
+      rw [hs] at h1 h2 hjs hj0
+      obtain rfl : j = 1 := by simp at hj0; omega
+      simp only [List.take_succ_cons, List.take_zero, List.drop_succ_cons, List.drop_zero] at h1 h2
+      have := ih b (srcRead 1 cs).2
+      rw [h2] at this
+      rw [runStreamImpl, hpair, h1]
+      simpa [runStream] using this
+  | readx n k ih =>
+    by_cases hn : n = 0
+    · subst hn; simpa [runStreamImpl, runStream] using ih [] cs
+    obtain ⟨a, b⟩ := srcReadFull_spec n n cs (Nat.le_refl _)
+    simp only [runStreamImpl, runStream, if_neg hn]
+    by_cases y : n ≤ cs.flatten.length
+    · obtain ⟨a1, a2, a3⟩ := a y
+      have := ih (cs.flatten.take n) (srcReadFull n n cs).2.2
+      rw [a3] at this
+      simp only [if_pos y, a1, a2]
+      exact this
+    · obtain ⟨a2, a3⟩ := b (by omega)
+      simp only [if_neg y, a2, Bool.false_eq_true, if_false, a3]
+      simp
+
+
+/-! ### `NextFrame` and the receive loop -/
+
+theorem srcDiscard_spec (n : Nat) (cs : Chunks) :
+    (srcDiscard n cs).1 = min n cs.flatten.length ∧
+    (srcDiscard n cs).2.flatten = cs.flatten.drop n := by
+  induction cs generalizing n with
+  | nil => simp [srcDiscard]
+  | cons c cs ih =>
+    obtain ⟨h1, h2⟩ := ih (n - c.length)
+    by_cases h : c.length ≤ n
+    · simp only [srcDiscard, if_pos h, h1, h2, List.flatten_cons, List.length_append,
+        List.drop_append]
+      refine ⟨by omega, ?_⟩
+      rw [List.drop_eq_nil_of_le h, List.nil_append]
+    · simp only [srcDiscard, if_neg h, List.flatten_cons, List.length_append, List.drop_append]
+      refine ⟨by omega, ?_⟩
+      have : n - c.length = 0 := by omega
+      rw [this, List.drop_zero]
+
+theorem finishFrameImpl_eq (res : FrameRes) (f : FR) :
+    (finishFrameImpl res f).1 = (finishFrame res f.rem f.src.flatten).res ∧
+    (finishFrameImpl res f).2.flatten = (finishFrame res f.rem f.src.flatten).rest := by
+  obtain ⟨h1, h2⟩ := srcDiscard_spec f.rem f.src
+  by_cases h : f.rem ≤ f.src.flatten.length
+  · have hd : ((srcDiscard f.rem f.src).1 == f.rem) = true := by
+      rw [h1, beq_iff_eq]; omega
+    simp only [finishFrameImpl, finishFrame, FR.drain, hd, if_pos h, if_true]
+    exact ⟨trivial, h2⟩
+  · have hd : ((srcDiscard f.rem f.src).1 == f.rem) = false := by
+      rw [h1, beq_eq_false_iff_ne]; omega
+    have h3 : (srcDiscard f.rem f.src).2.flatten = [] := by
+      rw [h2, List.drop_eq_nil_of_le (by omega)]
+    simp only [finishFrameImpl, finishFrame, FR.drain, hd, if_neg h]
+    cases res <;> simp [h3]
+
+theorem srcReadByte_spec (cs : Chunks) :
+    match srcReadByte cs with
+    | none => cs.flatten = []
+    | some (b, cs') => cs.flatten = b :: cs'.flatten := by
+  induction cs with
+  | nil => simp [srcReadByte]
+  | cons c cs ih =>
+    cases c with
+    | nil => simpa [srcReadByte] using ih
+    | cons b c => simp [srcReadByte]
+
+theorem FR.readByte_eq (f : FR) :
+    runFrame Prog.byte f.rem f.src.flatten =
+      match f.readByte with
+      | .error e => (⟨.error e, f.src.flatten⟩, f.rem)
+      | .ok (b, f1) => (⟨.ok b, f1.src.flatten⟩, f1.rem) := by
+  by_cases hr : f.rem = 0
+  · simp [FR.readByte, hr, Prog.byte, runFrame_readn1_zero]
+  · have := srcReadByte_spec f.src
+    simp only [FR.readByte, if_neg hr, Prog.byte]
+    split at this
+    · rename_i h; simp only [h, this, runFrame_readn1_nil _ _ hr]
+    · rename_i b cs' h; simp only [h, this, runFrame_readn1_cons _ _ hr, runFrame]
+
 
 theorem nextFrameImpl_eq (max : Nat) (ctx : Ctx) (cs : Chunks) :
     (nextFrameImpl max ctx cs).1 = (nextFrame max ctx cs.flatten).res ∧
     (nextFrameImpl max ctx cs).2.flatten = (nextFrame max ctx cs.flatten).rest := by
-  sorry
+  obtain ⟨hA, hB⟩ := runStreamImpl_eq (decIntBits 32) cs
+  unfold nextFrameImpl nextFrame
+  revert hA hB
+  generalize runStreamImpl (decIntBits 32) cs = x
+  generalize runStream (decIntBits 32) cs.flatten = y
+  obtain ⟨v, rest⟩ := x
+  obtain ⟨v', rest'⟩ := y
+  intro hA hB
+  simp only at hA hB
+  subst hA hB
+  cases v with
+  | error e => cases e <;> exact ⟨rfl, rfl⟩
+  | ok l =>
+    simp only []
+    split
+    · exact ⟨rfl, rfl⟩
+    split
+    · exact ⟨rfl, rfl⟩
+    have hb := FR.readByte_eq ⟨l.toNat, rest⟩
+    simp only [] at hb
+    rw [hb]
+    cases hrb : FR.readByte ⟨l.toNat, rest⟩ with
+    | error e => exact finishFrameImpl_eq _ _
+    | ok bf =>
+      obtain ⟨nb, f1⟩ := bf
+      simp only []
+      split
+      · exact finishFrameImpl_eq _ _
+      obtain ⟨h1, h2, h3⟩ := runFrameImpl_eq (decodeRPC ctx l.toNat (nb.toNat - 0x90)) f1
+      revert h1 h2 h3
+      generalize runFrameImpl (decodeRPC ctx l.toNat (nb.toNat - 0x90)) f1 = x
+      generalize runFrame (decodeRPC ctx l.toNat (nb.toNat - 0x90)) f1.rem f1.src.flatten = y
+      obtain ⟨v, f2⟩ := x
+      obtain ⟨⟨v', r'⟩, rem'⟩ := y
+      intro h1 h2 h3
+      simp only at h1 h2 h3
+      subst h1 h2 h3
+      cases v with
+      | error e => exact finishFrameImpl_eq _ _
+      | ok fr => exact finishFrameImpl_eq _ _
 
 theorem runLoopImpl_eq (max : Nat) (ctx : Ctx) (fuel : Nat) (cs : Chunks) :
     (runLoopImpl max ctx fuel cs).map (fun st => (st.1, st.2.flatten)) =
       (runLoop max ctx fuel cs.flatten).map (fun st => (st.res, st.rest)) := by
-  sorry
+  induction fuel generalizing cs with
+  | zero => rfl
+  | succ fuel ih =>
+    obtain ⟨h1, h2⟩ := nextFrameImpl_eq max ctx cs
+    simp only [runLoopImpl, runLoop, h1]
+    split
+    · rw [List.map_cons, List.map_cons, ih, h2, h1]
+    · simp only [List.map_cons, h1, h2, List.map_nil]
+
+
+/-! ### Byte accounting of the ideal readers -/
 
 /-- Whatever a program does, the ideal frame reader consumes exactly
     `rem - rem'` bytes of a stream that holds at least `rem` bytes. -/
 theorem runFrame_consumes (p : Prog α) (rem : Nat) (s : Bytes) (h : rem ≤ s.length) :
     (runFrame p rem s).2 ≤ rem ∧
     (runFrame p rem s).1.rest = s.drop (rem - (runFrame p rem s).2) := by
-  sorry
+  induction p generalizing rem s with
+  | ret a => simp [runFrame]
+  | fail e => simp [runFrame]
+  | readn1 k ih =>
+    by_cases hr : rem = 0
+    · subst hr; simp [runFrame_readn1_zero]
+    cases s with
+    | nil => simp at h; omega
+    | cons b t =>
+      rw [runFrame_readn1_cons _ _ hr]
+      obtain ⟨h1, h2⟩ := ih b (rem - 1) t (by simp at h; omega)
+      refine ⟨by omega, ?_⟩
+      rw [h2]
+      have : rem - (runFrame (k b) (rem - 1) t).2 = (rem - 1 - (runFrame (k b) (rem - 1) t).2) + 1 := by
+        omega
+      rw [this, List.drop_succ_cons]
+  | readx n k ih =>
+    by_cases hn : n = 0
+    · subst hn; simpa [runFrame] using ih [] rem s h
+    simp only [runFrame, if_neg hn]
+    by_cases x : n ≤ rem
+    · have y : n ≤ s.length := by omega
+      simp only [if_pos x, if_pos y]
+      obtain ⟨h1, h2⟩ := ih (s.take n) (rem - n) (s.drop n) (by simp; omega)
+      refine ⟨by omega, ?_⟩
+      rw [h2, List.drop_drop]
+      congr 1; omega
+    · simp only [if_neg x, if_pos h]
+      simp
 
-/-- The frame reader never hands out more than the budget, whatever the
-    stream holds. -/
+/-- Byte accounting without any assumption on the stream: the budget only
+    decreases, and it decreases by exactly what was taken from the stream
+    (in the truncated branches the whole stream, shorter than the budget, is
+    taken). -/
 theorem runFrame_budget (p : Prog α) (rem : Nat) (s : Bytes) :
     (runFrame p rem s).2 ≤ rem ∧
-    s.length - (runFrame p rem s).1.rest.length ≤ rem - (runFrame p rem s).2 ∨
-    (runFrame p rem s).1.rest = [] := by
-  sorry
+    (runFrame p rem s).1.rest.length + rem = s.length + (runFrame p rem s).2 := by
+  induction p generalizing rem s with
+  | ret a => simp [runFrame]
+  | fail e => simp [runFrame]
+  | readn1 k ih =>
+    by_cases hr : rem = 0
+    · subst hr; simp [runFrame_readn1_zero]
+    cases s with
+    | nil => simp [runFrame_readn1_nil _ _ hr]
+    | cons b t =>
+      rw [runFrame_readn1_cons _ _ hr]
+      obtain ⟨h1, h2⟩ := ih b (rem - 1) t
+      simp only [List.length_cons]
+      omega
+  | readx n k ih =>
+    by_cases hn : n = 0
+    · subst hn; simpa [runFrame] using ih [] rem s
+    simp only [runFrame, if_neg hn]
+    by_cases x : n ≤ rem
+    · by_cases y : n ≤ s.length
+      · simp only [if_pos x, if_pos y]
+        obtain ⟨h1, h2⟩ := ih (s.take n) (rem - n) (s.drop n)
+        simp only [List.length_drop] at h2
+        omega
+      · simp only [if_pos x, if_neg y, List.length_nil]
+        omega
+    · by_cases z : rem ≤ s.length
+      · simp only [if_neg x, if_pos z, List.length_drop]
+        omega
+      · simp only [if_neg x, if_neg z, List.length_nil]
+        omega
+
+/-- After any program, draining what is left of the budget ends at the frame
+    boundary (stream holding the whole frame). -/
+theorem runFrame_then_drain (p : Prog α) (rem : Nat) (s : Bytes) (h : rem ≤ s.length) :
+    (runFrame p rem s).2 ≤ (runFrame p rem s).1.rest.length ∧
+    (runFrame p rem s).1.rest.drop (runFrame p rem s).2 = s.drop rem := by
+  obtain ⟨h1, h2⟩ := runFrame_consumes p rem s h
+  rw [h2, List.length_drop, List.drop_drop]
+  refine ⟨by omega, ?_⟩
+  congr 1; omega
+
+/-- `drain` on a stream that holds the rest of the frame. -/
+theorem finishFrame_rest (res : FrameRes) (rem : Nat) (s : Bytes) (h : rem ≤ s.length) :
+    (finishFrame res rem s).rest = s.drop rem := by
+  simp [finishFrame, h]
+
+/-- `drain` never changes an error already present. -/
+theorem finishFrame_fail_res (e : Err) (rem : Nat) (s : Bytes) :
+    (finishFrame (.fail e) rem s).res = .fail e := by
+  unfold finishFrame; split <;> rfl
+
+/-- `drain` never skips more than the budget. -/
+theorem finishFrame_le (res : FrameRes) (rem : Nat) (s : Bytes) :
+    s.length - (finishFrame res rem s).rest.length ≤ rem := by
+  unfold finishFrame
+  split
+  · simp only [List.length_drop]; omega
+  · cases res <;> simp only [List.length_nil] <;> omega
+
+/-- The ideal stream reader only consumes. -/
+theorem runStream_rest_le (p : Prog α) (s : Bytes) : (runStream p s).rest.length ≤ s.length := by
+  induction p generalizing s with
+  | ret a => simp [runStream]
+  | fail e => simp [runStream]
+  | readn1 k ih =>
+    cases s with
+    | nil => simp [runStream]
+    | cons b t => have := ih b t; simp only [runStream, List.length_cons]; omega
+  | readx n k ih =>
+    simp only [runStream]
+    split
+    · exact ih _ _
+    split
+    · have := ih (s.take n) (s.drop n); simp only [List.length_drop] at this; omega
+    · simp
+
+
+/-! ### The length prefix -/
+
+/-- Width of the fixed-size field that follows an integer descriptor. -/
+def Desc.intWidthOk : Desc → Bool
+  | .uint w => decide (w ≤ 8)
+  | .sint w => decide (w ≤ 8)
+  | _ => true
+
+set_option maxRecDepth 8000 in
+theorem classifyNat_intWidthOk : ∀ n < 256, (classifyNat n).intWidthOk = true := by
+  decide
+
+theorem classify_uint_le (b : UInt8) (w : Nat) (h : classify b = .uint w) : w ≤ 8 := by
+  have := classifyNat_intWidthOk b.toNat b.toNat_lt
+  rw [classify] at h
+  rw [h] at this
+  simpa [Desc.intWidthOk] using this
+
+theorem classify_sint_le (b : UInt8) (w : Nat) (h : classify b = .sint w) : w ≤ 8 := by
+  have := classifyNat_intWidthOk b.toNat b.toNat_lt
+  rw [classify] at h
+  rw [h] at this
+  simpa [Desc.intWidthOk] using this
+
+theorem runStream_ite_rest (c : Prop) [Decidable c] (i : α) (e : Err) (s : Bytes) :
+    (runStream (if c then Prog.ret i else Prog.fail e) s).rest = s := by
+  split <;> rfl
+
+/-- One fixed-width field followed by a range check: at most `w` bytes. -/
+theorem runStream_readx_chk (w : Nat) (c : Bytes → Prop) [∀ bs, Decidable (c bs)]
+    (g : Bytes → α) (e : Err) (s : Bytes) :
+    s.length - (runStream (.readx w fun bs => if c bs then Prog.ret (g bs) else Prog.fail e) s).rest.length
+      ≤ w := by
+  simp only [runStream]
+  split
+  · rw [runStream_ite_rest]; omega
+  split
+  · rw [runStream_ite_rest, List.length_drop]; omega
+  · simp only [List.length_nil]; omega
 
 /-- The length decoder reads at most 9 bytes. -/
 theorem decIntBits_consumes_le (bits : Nat) (s : Bytes) :
     s.length - (runStream (decIntBits bits) s).rest.length ≤ 9 ∧
     (runStream (decIntBits bits) s).rest.length ≤ s.length := by
-  sorry
+  refine ⟨?_, runStream_rest_le _ _⟩
+  cases s with
+  | nil => simp
+  | cons b t =>
+    simp only [decIntBits, runStream, List.length_cons]
+    cases hcl : classify b with
+    | uint w =>
+      have hw := classify_uint_le b w hcl
+      have := runStream_readx_chk w
+        (fun bs => -(2 ^ (bits - 1) : Int) ≤
+            (if beNat bs < 2 ^ 63 then (beNat bs : Int) else (beNat bs : Int) - (2 ^ 64 : Int)) ∧
+          (if beNat bs < 2 ^ 63 then (beNat bs : Int) else (beNat bs : Int) - (2 ^ 64 : Int)) <
+            (2 ^ (bits - 1) : Int))
+        (fun bs => if beNat bs < 2 ^ 63 then (beNat bs : Int) else (beNat bs : Int) - (2 ^ 64 : Int))
+        .dec t
+      simp only [] at this ⊢
+      omega
+    | sint w =>
+      have hw := classify_sint_le b w hcl
+      have := runStream_readx_chk w
+        (fun bs => -(2 ^ (bits - 1) : Int) ≤ sintOf w bs ∧ sintOf w bs < (2 ^ (bits - 1) : Int))
+        (fun bs => sintOf w bs) .dec t
+      simp only [] at this ⊢
+      omega
+    | posfix n => simp only []; rw [runStream_ite_rest]; omega
+    | negfix i => simp only []; rw [runStream_ite_rest]; omega
+    | _ => simp only [runStream]; omega
+
+
+/-! ### What a program can return -/
+
+/-- Every value a program can return satisfies `P`. -/
+def Prog.All (P : α → Prop) : Prog α → Prop
+  | .ret a => P a
+  | .fail _ => True
+  | .readn1 k => ∀ b, Prog.All P (k b)
+  | .readx _ k => ∀ bs, Prog.All P (k bs)
+
+theorem Prog.All_bind (P : β → Prop) (q : Prog α) (f : α → Prog β)
+    (h : ∀ a, Prog.All P (f a)) : Prog.All P (Prog.bind q f) := by
+  induction q with
+  | ret a => exact h a
+  | fail e => trivial
+  | readn1 k ih => intro b; exact ih b
+  | readx n k ih => intro bs; exact ih bs
+
+theorem Prog.All_runFrame (P : α → Prop) (p : Prog α) (hp : Prog.All P p) (rem : Nat) (s : Bytes)
+    (v : α) (h : (runFrame p rem s).1.val = .ok v) : P v := by
+  induction p generalizing rem s with
+  | ret a => simp only [runFrame, Except.ok.injEq] at h; exact h ▸ hp
+  | fail e => simp [runFrame] at h
+  | readn1 k ih =>
+    by_cases hr : rem = 0
+    · subst hr; simp [runFrame_readn1_zero] at h
+    cases s with
+    | nil => simp [runFrame_readn1_nil _ _ hr] at h
+    | cons b t => rw [runFrame_readn1_cons _ _ hr] at h; exact ih b (hp b) _ _ h
+  | readx n k ih =>
+    simp only [runFrame] at h
+    split at h
+    · exact ih _ (hp _) _ _ h
+    split at h
+    · split at h
+      · exact ih _ (hp _) _ _ h
+      · simp at h
+    · split at h <;> simp at h
+
+/-- `decodeRPC` hands back a message or a not-found error; every other error
+    is a failure of the program itself. -/
+theorem decodeRPC_all (ctx : Ctx) (fuel l : Nat) :
+    Prog.All (fun fr => ∀ e, fr ≠ .fail e) (decodeRPC ctx fuel l) := by
+  unfold decodeRPC
+  repeat' (first
+    | apply Prog.All_bind; intro _
+    | exact fun _ => FrameRes.noConfusion
+    | exact True.intro
+    | split
+    | dsimp only)
 
 end FmpRpc
